@@ -1555,6 +1555,94 @@ theorem pathsum_append (M : ι → ι → ℝ) (p : ℕ → ι) (k : ℕ) (hk : 
 
 end pathsum
 
+-- ===== SIXTH BATCH: matrix product and matrix powers as values (`lemma_mpw`) =====
+-- The SMT `mdot(A, B)` (matrix product as a value) and `mpw(G, d)` (d-th power) are uninterpreted; `lemma_mpw(G, d)` states
+-- `mpw(G,1) == G` and, for `d >= 1`, `mpw(G,d+1) == mdot(mpw(G,d), G) == mdot(G, mpw(G,d))`.  Here they are definitions on
+-- `ι → ι → ℝ` (the in-range cells); `mpw G 0` is the identity matrix (outside the SMT equations' range `d ≥ 1`), which makes the
+-- three equations hold for every `d`.  `mpw_walk` links the value semantics to `walk` (support of a power of a non-negative matrix).
+
+section mpw
+open BigOperators Finset
+variable {ι : Type} [Fintype ι] [DecidableEq ι]
+
+noncomputable def mdot (A B : ι → ι → ℝ) : ι → ι → ℝ := fun x y => ∑ z, A x z * B z y
+
+noncomputable def mpw (G : ι → ι → ℝ) : ℕ → ι → ι → ℝ
+  | 0 => fun x y => if x = y then 1 else 0
+  | d + 1 => mdot (mpw G d) G
+
+theorem mdot_apply (A B : ι → ι → ℝ) (x y : ι) : mdot A B x y = ∑ z, A x z * B z y := rfl
+
+theorem mpw_zero (G : ι → ι → ℝ) : mpw G 0 = fun x y => if x = y then 1 else 0 := rfl
+
+theorem mdot_assoc (A B C : ι → ι → ℝ) : mdot (mdot A B) C = mdot A (mdot B C) := by
+  funext x y
+  simp only [mdot, Finset.sum_mul, Finset.mul_sum]
+  rw [Finset.sum_comm]
+  apply Finset.sum_congr rfl
+  intro w _
+  apply Finset.sum_congr rfl
+  intro z _
+  ring
+
+theorem mdot_id_left (G : ι → ι → ℝ) : mdot (fun x y => if x = y then 1 else 0) G = G := by
+  funext x y
+  simp [mdot]
+
+theorem mdot_id_right (G : ι → ι → ℝ) : mdot G (fun x y => if x = y then 1 else 0) = G := by
+  funext x y
+  simp [mdot]
+
+/-- `lemma_mpw`, first conjunct: `mpw(G, 1) == G` -/
+theorem mpw_one (G : ι → ι → ℝ) : mpw G 1 = G := by
+  show mdot (mpw G 0) G = G
+  rw [mpw_zero, mdot_id_left]
+
+/-- `lemma_mpw`: `d >= 1 → mpw(G, d+1) == mdot(mpw(G, d), G)` (holds for every `d` with `mpw G 0` the identity) -/
+theorem mpw_succ (G : ι → ι → ℝ) (d : ℕ) (_hd : 1 ≤ d) : mpw G (d + 1) = mdot (mpw G d) G := rfl
+
+/-- `mpw G (d+1) = G · G^d` for every `d` -/
+theorem mpw_succ_left' (G : ι → ι → ℝ) (d : ℕ) : mpw G (d + 1) = mdot G (mpw G d) := by
+  induction d with
+  | zero => rw [mpw_one, mpw_zero, mdot_id_right]
+  | succ d ih =>
+    show mdot (mpw G (d + 1)) G = mdot G (mdot (mpw G d) G)
+    rw [ih, mdot_assoc]
+
+/-- `lemma_mpw`: `d >= 1 → mpw(G, d+1) == mdot(G, mpw(G, d))` -/
+theorem mpw_succ_left (G : ι → ι → ℝ) (d : ℕ) (_hd : 1 ≤ d) : mpw G (d + 1) = mdot G (mpw G d) :=
+  mpw_succ_left' G d
+
+theorem mpw_nonneg (G : ι → ι → ℝ) (hG : ∀ x y, 0 ≤ G x y) (d : ℕ) (x y : ι) : 0 ≤ mpw G d x y := by
+  induction d generalizing x y with
+  | zero =>
+    rw [mpw_zero]
+    by_cases h : x = y
+    · simp [h]
+    · simp [h]
+  | succ d ih => exact dot_nonneg (mpw G d) G ih hG x y
+
+/-- for an entrywise non-negative `G`, the support of `G^d` is the relation "there is a walk of exactly `d` edges"
+(every `d`; the SMT `walk` and `mpw` are only constrained for `d ≥ 1`) -/
+theorem mpw_walk (G : ι → ι → ℝ) (hG : ∀ x y, 0 ≤ G x y) (d : ℕ) (x y : ι) : mpw G d x y ≠ 0 ↔ walk G x y d := by
+  induction d generalizing y with
+  | zero =>
+    rw [mpw_zero, walk_zero]
+    by_cases h : x = y
+    · simp [h]
+    · simp [h]
+  | succ d ih =>
+    rw [walk_succ]
+    show (∑ z, mpw G d x z * G z y) ≠ 0 ↔ _
+    rw [dot_support (mpw G d) G (mpw_nonneg G hG d) hG x y]
+    constructor
+    · rintro ⟨z, h1, h2⟩
+      exact ⟨z, (ih z).mp h1, h2⟩
+    · rintro ⟨z, h1, h2⟩
+      exact ⟨z, (ih z).mpr h1, h2⟩
+
+end mpw
+
 -- NOT PROVED HERE: nothing was left out; every quantified fact of `spec_axioms()` and every `lemma_*` instance of
 -- engine/pyvc/core.py has a theorem above (see README.md for the table).  Three SMT axioms are not theorems but
 -- definitions / typing facts of this formalisation:
@@ -1572,5 +1660,7 @@ end pathsum
 -- (fourth batch, continued: `tot_indicator_of_injective_cells_witness` (where-index form of `lemma_image_count`), `tot_add` for
 --  `lemma_tsum_add`, `tot_int` for `lemma_tsum_int`, `tot_offdiag_ones` for `lemma_full_offdiag`: all proved.)
 -- (fifth batch: definition `pathsum`; `pathsum_one`, `pathsum_append` for `lemma_pathsum` / `lemma_pathsum_append`, `pathsum_congr`: all proved.)
+-- (sixth batch: definitions `mdot`, `mpw`; `mpw_one`, `mpw_succ`, `mpw_succ_left` for `lemma_mpw` (via `mdot_assoc`, `mdot_id_left/right`),
+--  `mpw_nonneg`, `mpw_walk` (support of a power of a non-negative matrix = walks): all proved.)
 
 end VerifLemmas
